@@ -46,7 +46,12 @@ func CheckConstructor(
 				if node.Recv != nil && len(node.Recv.List) > 0 {
 					// A method is written as "Receiver.Name": a method of another type that merely
 					// shares a constructor's name is not that constructor
-					if recv := annotations.ExtractReceiverType(node.Recv.List[0].Type); recv != "" {
+					// the receiver's defined type, however it is spelled (alias, parentheses)
+					recv := util.ExtractTypeName(pass.TypesInfo.TypeOf(node.Recv.List[0].Type))
+					if recv == "" {
+						recv = annotations.ExtractReceiverType(node.Recv.List[0].Type)
+					}
+					if recv != "" {
 						currentFunction = recv + "." + node.Name.Name
 					}
 				}
